@@ -1,6 +1,9 @@
 From Coq Require Import extraction.Extraction extraction.ExtrOcamlBasic.
-From TU Require Import Base BPE_Model C02_Model.
-Definition run := run_C02.
-Definition check := check_C02.
-Definition agree (inp m i : val) : bool := val_eqb m i.
+From TU Require Import Base BPE_Model C02_Model MsgPack_Model C02_File.
+(* the merge file is inside the model (C02_File.v): explicit file bytes in the input are decoded by
+   MsgPack_Model.mp_parse; the bytes the real tokenizer was built from and the real loader's reading of
+   them (last two fields of the implementation output) must be what the model reads / would write *)
+Definition run := run_C02f.
+Definition check := check_C02f.
+Definition agree (inp m i : val) : bool := agree_C02f inp m i.
 Extraction "model.ml" run check agree.
